@@ -11,9 +11,9 @@ DEMO=$(ls demo_*.py | head -1)
 T_WITH=$(/venv/bin/python -m pytest -q -p no:cacheprovider tests/unit 2>&1 | tail -1)
 set +e
 /venv/bin/python $DEMO > /tmp/seed/$TAG.demo_with.log 2>&1; D_WITH=$?
-git stash -q
+git apply -R /tmp/seed/$TAG.patch
 /venv/bin/python $DEMO > /tmp/seed/$TAG.demo_without.log 2>&1; D_WITHOUT=$?
-git stash pop -q
+git apply /tmp/seed/$TAG.patch
 set -e
 echo "tests with change: $T_WITH"; echo "demo with change exit=$D_WITH; without exit=$D_WITHOUT"
 case "$T_WITH" in *"609 passed"*) ;; *) echo "REJECT: tests"; exit 1;; esac
